@@ -2,7 +2,7 @@
    eval_fc is the model of FormatConstraintTransformer + FormatErrorMessageExpressionBuilder (tied by correspondence).
    The tree e is whatever the parser produced; that its grouping follows the documented precedence is C01, and the
    Boolean value does not depend on the grouping inside runs of one operator (C01_value_independent_of_runs). *)
-From Ahb Require Import Model.Prelude Model.Grammar Model.EvalRC Model.EvalFC Proofs.C08_fc.
+From Ahb Require Import Model.Prelude Model.Grammar Gen.Gen_grammar Model.Lex Model.EvalRC Model.EvalFC Proofs.C08_fc Proofs.C07_parse.
 
 Theorem C08_boolean : forall beta fe e, no_then e = true -> fenv_ok beta fe e ->
   exists r, eval_fc fe e = Ok r /\ ff r = bval beta e.
@@ -21,3 +21,9 @@ Theorem C08_default_message : forall k r,
   ff (default_message k r) = ff r /\ (ff r = false -> fmsg (default_message k r) <> None).
 Proof. exact default_message_explains. Qed.
 Print Assumptions C08_default_message.
+
+(* the Boolean value does not depend on the grouping inside runs of one operator: all trees admitted by the parser's
+   resolution for the same token forest have the same value (with C01: it is the value under the documented precedence) *)
+Theorem C08_value_independent_of_runs : forall (beta : atom -> bool) its e e', Rc its e -> Rc its e' -> bvalg beta e = bvalg beta e'.
+Proof. exact value_independent_of_runs. Qed.
+Print Assumptions C08_value_independent_of_runs.
